@@ -657,6 +657,25 @@ def check_binary(ctx, table, case):
                   lambda: {"score": k, "got": repr(g), "want": w,
                            "table": [[TN, FP], [FN, TP]]})
     ctx.nontrivial("bin", TN, FP, FN, TP)
+    # the table as a labelled data frame (what confusion_matrix and pandas.crosstab
+    # return): the cells are taken by position, whatever the labels say
+    import pandas as _pd
+    labs = [["no flood", "flood"], ["below", "above"], [1, 0], [False, True], ["b", "a"],
+            ["dry", "wet"], [0, 1], ["yes", "no"]][(TN + 3 * FP + 5 * FN + 7 * TP) % 8]
+    ctx.tag("binary:labelled-frame")
+    ctx.api("binary")
+    gotf = call(m.binary, _pd.DataFrame([[TN, FP], [FN, TP]], index=labs, columns=labs))
+    if isinstance(gotf, Exception):
+        ctx.extra["binary-labelled-frame-refused"] += 1
+    else:
+        scf, _ = gotf
+        badf = [k for k in want if not (scf.get(k) is not None and sc.get(k) is not None and
+                                        (scf.get(k) == sc.get(k) or
+                                         (scf.get(k) != scf.get(k) and sc.get(k) != sc.get(k))))]
+        ctx.check("binary.labelled-frame", not badf,
+                  "binary|result-depends-on-the-labels-of-the-table", case,
+                  lambda: {"labels": labs, "scores_that_differ": badf[:5],
+                           "table": [[TN, FP], [FN, TP]]})
 
 
 # ------------------------------------------------------------------ driver ----
@@ -822,6 +841,16 @@ def run(ctx):
         if it % 7 == 0:
             tb = [[int(t[0]), int(t[0])], [int(t[2]), int(t[2])]]   # theta == 1
         check_binary(ctx, tb, {"kind": "binary", "table": tb})
+        if it % 4 == 1:
+            # large tables one count away from independence: the odds ratio differs from
+            # 1 by a few millionths, on one side or the other
+            p_, q_ = int(rng.integers(2, 10)), int(rng.integers(2, 10))
+            k_, m_ = int(10 ** rng.uniform(4, 6)), int(10 ** rng.uniform(4, 6))
+            dl = [1, -1, 2, -3][it // 4 % 4]
+            tn = [[k_ * p_, k_ * q_], [m_ * p_, m_ * q_ + dl]]
+            ctx.evaluated()
+            ctx.tag("binary:near-independence")
+            check_binary(ctx, tn, {"kind": "binary", "table": tn})
 
 
 def replay(ctx, case):
